@@ -154,6 +154,7 @@ func cmdCheck(mode string, args []string) {
 	}
 	run.addLemmas(*prop)
 	run.addTables(*prop)
+	run.addStateUnits(*prop)
 	if mode == "dump" {
 		for _, o := range run.Obls {
 			if *oblName == "" {
